@@ -137,6 +137,45 @@ def install():
     return PATCHED_MODULES
 
 
+import time as _time
+
+REAL_TIME = {"time": _time.time, "monotonic": _time.monotonic, "perf_counter": _time.perf_counter}
+_CLOCK_BASE = 1.0e6  # arbitrary epoch of the simulated clock
+
+
+def _sim_clock():
+    sim = simpool.CURRENT
+    if sim is None:
+        return REAL_TIME["monotonic"]()
+    sim.probes["clock_reads"] += 1
+    return _CLOCK_BASE + sim.now
+
+
+def _patch_clocks(on):
+    """While a run is active every wall/monotonic clock the library could read is the simulated one:
+    names imported into pyimpspec modules (from time import monotonic) and the time module itself."""
+    reals = {id(REAL_TIME[k]): k for k in REAL_TIME}
+    for name, mod in list(sys.modules.items()):
+        if mod is None or not (name == "pyimpspec" or name.startswith("pyimpspec.")):
+            continue
+        for attr, val in list(vars(mod).items()):
+            if on and id(val) in reals and callable(val):
+                setattr(mod, attr, _SimClockFn(reals[id(val)]))
+            elif not on and isinstance(val, _SimClockFn):
+                setattr(mod, attr, REAL_TIME[val.kind])
+    for k in REAL_TIME:
+        setattr(_time, k, _SimClockFn(k) if on else REAL_TIME[k])
+
+
+class _SimClockFn:
+    def __init__(self, kind):
+        self.kind = kind
+        self.__name__ = kind
+
+    def __call__(self):
+        return _sim_clock()
+
+
 @contextmanager
 def active(sim, backend="agg"):
     global BACKEND
@@ -145,8 +184,10 @@ def active(sim, backend="agg"):
     install()
     simpool.CURRENT = sim
     BACKEND = backend
+    _patch_clocks(True)
     try:
         yield sim
     finally:
+        _patch_clocks(False)
         simpool.CURRENT = None
         BACKEND = None
